@@ -14,13 +14,14 @@ import (
 
 // Block is "acquire key K in some way, run Inner while holding it, release".
 type Block struct {
-	How   string  `json:"how"` // Lock TryLock RLock TryRLock Clear
+	How   string  `json:"how"` // Lock TryLock RLock TryRLock Clear Hold (= Lock that is never released)
 	K     int     `json:"k"`
 	Inner []Block `json:"inner,omitempty"`
 }
 
 type Case struct {
-	RW      bool      `json:"rw"` // KeyedRWMutex instead of KeyedMutex
+	RW      bool      `json:"rw"`     // KeyedRWMutex instead of KeyedMutex
+	Prefix  []Block   `json:"prefix"` // sequential set-up run by thread 0 alone before the others start
 	Progs   [][]Block `json:"progs"`
 	Choices []int     `json:"choices"`
 	Kind    string    `json:"kind"`
@@ -96,6 +97,10 @@ func execute(cs Case, choose sched.Chooser) (sched.Result, *runInfo) {
 						} else {
 							do("Clear", k, "", unit(func() { km.ClearKey(k) }))
 						}
+					case !cs.RW && b.How == "Hold":
+						do("Lock", k, "PLock", unit(func() { km.LockKey(k) }))
+					case cs.RW && b.How == "Hold":
+						do("Lock", k, "PWLock", unit(func() { rw.LockKey(k) }))
 					case !cs.RW && b.How == "Lock":
 						do("Lock", k, "PLock", unit(func() { km.LockKey(k) }))
 						runBlocks(b.Inner)
@@ -125,6 +130,9 @@ func execute(cs Case, choose sched.Chooser) (sched.Result, *runInfo) {
 						}
 					}
 				}
+			}
+			if t == 0 {
+				runBlocks(cs.Prefix)
 			}
 			runBlocks(cs.Progs[t])
 		}
@@ -253,7 +261,7 @@ func report(c *core.Ctx, cs Case, r sched.Result, info *runInfo) {
 			}
 		}
 	}
-	if r.Panic != "" {
+	if fail == "" && r.Panic != "" {
 		fail = "panic or runaway schedule: " + r.Panic
 	}
 	if fail != "" {
@@ -303,6 +311,11 @@ func randBlocks(c *core.Ctx, rw bool, nkeys, depth, n int) []Block {
 }
 
 func explore(c *core.Ctx, cs Case, maxPre, limit int) {
+	var base []int // the set-up prefix runs alone: thread 0 is forced while it executes it
+	if len(cs.Prefix) > 0 {
+		r, _ := execute(Case{RW: cs.RW, Prefix: cs.Prefix, Progs: [][]Block{{}}}, sched.NonPreemptive)
+		base = r.Chosen
+	}
 	count := 0
 	var rec func(prefix []int) bool
 	rec = func(prefix []int) bool {
@@ -313,8 +326,11 @@ func explore(c *core.Ctx, cs Case, maxPre, limit int) {
 		count++
 		report(c, cs, r, info)
 		for j := len(prefix); j < len(r.Chosen); j++ {
+			if j < len(base) {
+				continue
+			}
 			pre := 0
-			for i := 1; i < j; i++ {
+			for i := len(base) + 1; i < j; i++ {
 				if r.Chosen[i] != r.Chosen[i-1] && has(r.Enabled[i], r.Chosen[i-1]) {
 					pre++
 				}
@@ -324,7 +340,7 @@ func explore(c *core.Ctx, cs Case, maxPre, limit int) {
 					continue
 				}
 				p := pre
-				if j > 0 && has(r.Enabled[j], r.Chosen[j-1]) && alt != r.Chosen[j-1] {
+				if j > len(base) && has(r.Enabled[j], r.Chosen[j-1]) && alt != r.Chosen[j-1] {
 					p++
 				}
 				if p > maxPre {
@@ -337,7 +353,7 @@ func explore(c *core.Ctx, cs Case, maxPre, limit int) {
 		}
 		return true
 	}
-	rec(nil)
+	rec(base)
 }
 
 func has(s []int, x int) bool {
@@ -426,6 +442,38 @@ func run(c *core.Ctx) {
 		b.Kind = fmt.Sprintf("explore_%d", i)
 		explore(c, b, maxPre, limit)
 	}
+	// 1b. the same races when the key's entry in the underlying map is in each of its internal states
+	// (promoted to the read map; cleared = nil entry; expunged after a fresh key rebuilt the dirty map;
+	// ClearKey happens only while nobody holds or awaits the key, as the property requires)
+	LU := func(k int) Block { return L("Lock", k) }
+	C := func(k int) Block { return Block{How: "Clear", K: k} }
+	H := func(k int) Block { return Block{How: "Hold", K: k} }
+	layouts := [][]Block{
+		{LU(0)},                    // key 0 promoted into the read map
+		{LU(0), C(0)},              // key 0 cleared: nil entry in the read map
+		{LU(0), C(0), H(2)},        // key 0 expunged (fresh key 2 rebuilt the dirty map and is still held)
+		{LU(0), LU(1), C(0), H(2)}, // the same with another live key
+		{LU(0), C(0), LU(2)},       // expunged then dropped at the next promotion
+		{LU(0), H(2)},              // amended dirty map, key 0 in both
+	}
+	small := []Case{
+		{Progs: [][]Block{{L("Lock", 0)}, {L("Lock", 0)}}},
+		{Progs: [][]Block{{L("Lock", 0)}, {L("TryLock", 0)}}},
+		{RW: true, Progs: [][]Block{{L("RLock", 0)}, {L("Lock", 0)}}},
+		{RW: true, Progs: [][]Block{{L("Lock", 0)}, {L("TryRLock", 0)}}},
+		{Progs: [][]Block{{L("Lock", 0)}, {L("Lock", 0)}, {L("Lock", 1)}}},
+	}
+	lim2 := c.N(60, 1500, 300)
+	for li, lay := range layouts {
+		for bi, b := range small {
+			if c.Tier == "quick" && (li+bi)%2 != int(c.Seed%2) {
+				continue // quick tier: half of the layout x program grid per run, rotating with the seed
+			}
+			b.Prefix = lay
+			b.Kind = fmt.Sprintf("layout_%d", li)
+			explore(c, b, maxPre, lim2)
+		}
+	}
 	// 2. random programs and schedules: 2-4 goroutines, 1-3 keys
 	for i := c.N(600, 40000, 8000); i > 0; i-- {
 		rw := c.Rng.Bool()
@@ -436,7 +484,28 @@ func run(c *core.Ctx) {
 			progs[t] = randBlocks(c, rw, nkeys, 1, 1+c.Rng.Intn(3))
 		}
 		cs := Case{RW: rw, Progs: progs, Kind: "random"}
-		r, info := execute(cs, sched.Random(c.Rng.Intn, 40))
+		if c.Rng.Chance(50) {
+			var pre []Block
+			for j := c.Rng.Intn(5); j > 0; j-- {
+				k := c.Rng.Intn(nkeys)
+				switch c.Rng.Intn(3) {
+				case 0:
+					pre = append(pre, Block{How: "Lock", K: k})
+				case 1:
+					pre = append(pre, Block{How: "Clear", K: k})
+				default:
+					pre = append(pre, Block{How: "Lock", K: 3 + c.Rng.Intn(2)})
+				}
+			}
+			cs.Prefix = pre
+			cs.Kind = "random_prefix"
+		}
+		var base []int // the set-up prefix runs alone first (ClearKey only while nobody holds or awaits the key)
+		if len(cs.Prefix) > 0 {
+			r0, _ := execute(Case{RW: cs.RW, Prefix: cs.Prefix, Progs: [][]Block{{}}}, sched.NonPreemptive)
+			base = r0.Chosen
+		}
+		r, info := execute(cs, sched.Then(base, sched.Random(c.Rng.Intn, 40)))
 		report(c, cs, r, info)
 	}
 }
